@@ -11,6 +11,16 @@ CHECKS = {
          "Every run drives the real hack.HijackClientHelloConn between a scripted net.Conn and a reader and compares GetClientHello()/the bytes passed up with the stream prefix the property defines, after every single read. All declared lengths 0..18432 and all cut patterns of short streams are enumerated; the rest is PRNG driven. Held on the executions produced, nothing more.",
          "trusted: the 60-line oracle in checks/c04 (expect()), crypto/tls as the layer above for the round-trip part; reads that return bytes together with an error are judged for transparency only",
          "DESIGN.md §4 C04"),
+ "C18": ("exploration",
+         "runtime monitor: RFC 7541 reference decoder + encoder/decoder table equality through the verif hook + every/random fragmentation + byte-for-byte differential against golang.org/x/net/http2/hpack v0.19.0",
+         "The real encoder and decoder of pkg/http2/hpack are run on generated header-list sequences with table-size schedules, and on valid, mutated, grammar-generated and random blocks; every block is decoded whole, with random cuts, with every single cut (<=40 bytes) and every composition (<=9 bytes) and compared with an independent reference decoder; tables and size invariants are read through the hook after every block. Held on the inputs generated; not a proof.",
+         "trusted: internal/ref/hpack.go (calibrated at start-up against RFC 7541 C.4 and x/net v0.19.0; Huffman table derived from x/net v0.19.0's encoder); outcomes the RFC leaves open (mid-block size update, >2 leading updates, integers beyond 2^56) are not judged",
+         "DESIGN.md §4 C18"),
+ "C20": ("exploration",
+         "runtime monitor: list-based reference scheduler mirrored op by op + structural walk of the priority tree / round-robin ring through the verif hook after every operation",
+         "Random operation sequences permitted by the WriteScheduler interface are applied to the real round-robin, random and priority schedulers (13 priority configurations); every Pop is judged against a FIFO reference (exactly-once, per-stream order, control first, window and frame-size limits, split pieces concatenate, 'nothing to write' only when nothing is sendable), the tree/ring is walked after every operation, and each sequence ends with a full drain. Held on the sequences generated.",
+         "trusted: the reference in checks/c20 and the inspectors in pkg/http2/verif_export.go; sequences respect the documented preconditions of the interface",
+         "DESIGN.md §4 C20"),
 }
 NA_REASON = "check not built yet in this phase (see DESIGN.md §7 build order); will be claimed once its monitor exists and is silent on the unchanged tree"
 
